@@ -80,13 +80,16 @@ pub struct Sim {
     pub max_runnable: usize,
     pub tasks_spawned: u64,
     pub live: BTreeSet<usize>,
+    /// decision count at which each runnable task became runnable (for weak fairness)
+    waiting_since: BTreeMap<usize, u64>,
     pct_prio: BTreeMap<usize, u64>,
     pct_next: u64,
     pct_changes: Vec<u64>,
     pub probes: Counters,
     pub tag: String,
     pub blocking_used: bool,
-    pub budget_exceeded: bool,
+    /// set when the run must end at once with this (class, message); every later task poll aborts
+    pub abort: Option<(String, String)>,
     pub log: Option<Vec<String>>,
 }
 
@@ -120,13 +123,14 @@ pub fn install(policy: Policy, seed: u64, replay: Vec<u32>, step_budget: u64, lo
         max_runnable: 0,
         tasks_spawned: 0,
         live: BTreeSet::new(),
+        waiting_since: BTreeMap::new(),
         pct_prio: BTreeMap::new(),
         pct_next: 1 << 32,
         pct_changes,
         probes: Counters::default(),
         tag: String::new(),
         blocking_used: false,
-        budget_exceeded: false,
+        abort: None,
         log: if log { Some(vec![]) } else { None },
     };
     SIM.with(|s| *s.borrow_mut() = Some(sim));
@@ -164,11 +168,25 @@ pub fn set_tag(t: &str) {
 /// Folds a harness-level event (fault fired, batch emitted, ...) into the trace hash.
 pub fn trace_event(kind: &str, a: u64) {
     try_with(|s| {
+        if s.abort.is_some() {
+            return;
+        }
         s.trace_hash = fnv1a(fnv1a(s.trace_hash, kind.as_bytes()), &a.to_le_bytes());
         if let Some(l) = s.log.as_mut() {
             l.push(format!("{kind} {a}"));
         }
     });
+}
+/// Ends the run as soon as possible with the given violation class.
+pub fn request_abort(class: &str, msg: String) {
+    try_with(|s| {
+        if s.abort.is_none() {
+            s.abort = Some((class.to_string(), msg));
+        }
+    });
+}
+pub fn steps() -> u64 {
+    try_with(|s| s.steps).unwrap_or(0)
 }
 pub fn live_tasks() -> usize {
     with(|s| s.live.len())
@@ -176,6 +194,10 @@ pub fn live_tasks() -> usize {
 
 impl Sim {
     fn note(&mut self, id: usize, what: &str) {
+        if self.abort.is_some() {
+            // the run is over; how it unwinds (in-process) or exits (forked) is not part of the trace
+            return;
+        }
         self.trace_hash = fnv1a(fnv1a(self.trace_hash, what.as_bytes()), &(id as u64).to_le_bytes());
         if let Some(l) = self.log.as_mut() {
             l.push(format!("{what} t{id}"));
@@ -190,12 +212,29 @@ impl Sim {
         if n >= 2 {
             self.nontrivial_decisions += 1;
         }
+        // Weak fairness: every policy may delay a runnable task for at most FAIR_BOUND decisions.
+        // tokio's scheduler is FIFO-fair, so schedules that starve a runnable task forever are not
+        // executions of the real system (and would turn liveness oracles into false alarms).
+        const FAIR_BOUND: u64 = 400;
+        let now = self.decisions.len() as u64;
+        self.waiting_since.retain(|t, _| v.contains(t));
+        for t in &v {
+            self.waiting_since.entry(*t).or_insert(now);
+        }
+        let overdue = v
+            .iter()
+            .enumerate()
+            .filter(|(_, t)| now - self.waiting_since[*t] > FAIR_BOUND)
+            .min_by_key(|(_, t)| self.waiting_since[*t])
+            .map(|(i, _)| i);
         let idx: usize = if self.replay_pos < self.replay.len() {
             let d = self.replay[self.replay_pos] as usize;
             self.replay_pos += 1;
             d.min(n - 1)
         } else if n == 1 {
             0
+        } else if let Some(i) = overdue {
+            i
         } else {
             match self.policy.clone() {
                 Policy::Random => self.rng.below(n as u64) as usize,
@@ -238,6 +277,7 @@ impl Sim {
             }
         };
         self.decisions.push(idx as u32);
+        self.waiting_since.remove(&v[idx]);
         v[idx]
     }
 }
@@ -278,8 +318,8 @@ impl<F: Future> Future for SimTask<F> {
             if s.chosen == Some(id) {
                 s.runnable.remove(&id);
                 s.steps += 1;
-                if s.steps > s.step_budget {
-                    s.budget_exceeded = true;
+                if s.steps > s.step_budget && s.abort.is_none() {
+                    s.abort = Some(("livelock".into(), "step budget exceeded: the run neither finished nor went idle".into()));
                 }
                 s.note(id, "poll");
                 true
@@ -288,8 +328,10 @@ impl<F: Future> Future for SimTask<F> {
                 false
             }
         });
-        if with(|s| s.budget_exceeded) {
-            crate::runner::abort_run("livelock", "step budget exceeded: the run neither finished nor went idle");
+        if let Some((c, m)) = with(|s| s.abort.clone()) {
+            // release the scheduler so that the remaining tasks (and the root) get here too
+            with(|s| s.chosen = None);
+            crate::runner::abort_run(&c, &m);
         }
         if !go {
             cx.waker().wake_by_ref();
